@@ -4,6 +4,7 @@ assignments from the implementation's own field objects (independent of the tran
 from array import array
 
 from . import common as C
+from gen import fieldprobe as P
 
 
 def registry_names():
@@ -18,7 +19,7 @@ def cls_of(name):
 
 def inner(f):
     from pyipmi.msgs import message as M
-    return f._field if type(f) in (M.Optional, M.Conditional) else f
+    return P.wrapped(f, M)
 
 
 def kind(f):
@@ -48,7 +49,7 @@ def canon_val(v, f):
     if v is None:
         return ('none',)
     if isinstance(v, M.Bitfield.BitWrapper):
-        return ('bits', [getattr(v, b.name) for b in inner(f)._bits])
+        return ('bits', [getattr(v, b.name) for b in P.bits_of(inner(f), M)])
     if isinstance(v, bool):
         return ('int', int(v))
     if isinstance(v, int):
@@ -117,7 +118,7 @@ def gen_in_range(cls, rng, mode='random', n_present=None):
     from pyipmi.msgs import message as M
     fs = fields_of(cls)
     obj = cls()
-    nopt = sum(1 for f in fs if type(f) is M.Optional)
+    nopt = sum(1 for f in fs if isinstance(f, M.Optional))
     if n_present is None:
         n_present = rng.randrange(nopt + 1) if nopt else 0
     seen_opt = 0
@@ -140,8 +141,8 @@ def gen_in_range(cls, rng, mode='random', n_present=None):
             return ('int', rng.choice([0, 1, top - 1, top >> 1, rng.randrange(top), rng.randrange(top)]))
         if t is M.Bitfield:
             vs = []
-            for b in f._bits:
-                mx = 2 ** b._width - 1
+            for b in P.bits_of(f, M):
+                mx = 2 ** b.width - 1
                 vs.append(0 if mode == 'zeros' else mx if mode in ('ones', 'topbit') else rng.choice([0, mx, rng.randrange(mx + 1)]))
             return ('bits', vs)
         if t is M.ByteArray:
@@ -166,20 +167,20 @@ def gen_in_range(cls, rng, mode='random', n_present=None):
 
     env = []
     for i, f in enumerate(fs):
-        if type(f) is M.Optional:
+        if isinstance(f, M.Optional):
             seen_opt += 1
             if seen_opt > n_present:
                 env.append(('none',))
                 continue
-            v = base_val(f._field)
-            if kind(f._field) is M.RemainingBytes and v[1] == b'':
+            v = base_val(inner(f))
+            if kind(f) is M.RemainingBytes and v[1] == b'':
                 v = ('bytes', bytes([rng.randrange(256)]))
-        elif type(f) is M.Conditional:
+        elif isinstance(f, M.Conditional):
             set_env_prefix(obj, fs, env)
-            if f._condition_fn(obj):
-                v = base_val(f._field)
+            if P.condition_fn(f, M)(obj):
+                v = base_val(inner(f))
             else:
-                v = canon_val(f._field.create(), f)
+                v = canon_val(inner(f).create(), f)
         else:
             v = base_val(f)
         if v == ('var',):
@@ -190,12 +191,12 @@ def gen_in_range(cls, rng, mode='random', n_present=None):
             # find which earlier field the length function reads by probing
             target = None
             for j, g in enumerate(fs[:i]):
-                if kind(g) is M.UnsignedInt and type(g) not in (M.Optional, M.Conditional):
+                if kind(g) is M.UnsignedInt and not P.is_wrapper(g, M):
                     setattr(probe, g.name, 0)
             for j, g in enumerate(fs[:i]):
-                if kind(g) is M.UnsignedInt and type(g) not in (M.Optional, M.Conditional):
+                if kind(g) is M.UnsignedInt and not P.is_wrapper(g, M):
                     setattr(probe, g.name, 77)
-                    if f._length_func(probe) == 77:
+                    if P.length_fn(inner(f), M)(probe) == 77:
                         target = j
                     setattr(probe, g.name, 0)
             if target is None:
@@ -209,6 +210,7 @@ def gen_in_range(cls, rng, mode='random', n_present=None):
 
 
 def set_env_prefix(obj, fs, env):
+    from pyipmi.msgs import message as M
     for f, v in zip(fs, env):
         name = inner(f).name
         if v[0] == 'none':
@@ -217,7 +219,7 @@ def set_env_prefix(obj, fs, env):
             setattr(obj, name, v[1])
         elif v[0] == 'bits':
             w = getattr(obj, name)
-            for b, x in zip(inner(f)._bits, v[1]):
+            for b, x in zip(P.bits_of(inner(f), M), v[1]):
                 setattr(w, b.name, x)
         else:
             setattr(obj, name, array('B', v[1]))
@@ -226,7 +228,7 @@ def set_env_prefix(obj, fs, env):
 def n_optional(cls):
     from pyipmi.msgs import message as M
     fs = fields_of(cls)
-    return sum(1 for f in fs if type(f) is M.Optional)
+    return sum(1 for f in fs if isinstance(f, M.Optional))
 
 
 def encode_env(cls, env):
@@ -254,7 +256,7 @@ def decoded_types_problem(cls, data):
         v = getattr(obj, g.name)
         if v is None:
             continue
-        if type(g) in (M.ByteArray, M.VariableByteArray, M.RemainingBytes) and not isinstance(v, (array, bytes, bytearray)):
+        if kind(g) in (M.ByteArray, M.VariableByteArray, M.RemainingBytes) and not isinstance(v, (array, bytes, bytearray)):
             return 'field %s holds %r (%s) after decoding, not a byte array' % (g.name, v, type(v).__name__)
         if isinstance(g, M.UnsignedInt) and (not isinstance(v, int) or isinstance(v, bool)):
             return 'field %s holds %r (%s) after decoding, not an int' % (g.name, v, type(v).__name__)
